@@ -331,7 +331,8 @@ prop(
 for nm, stname, tier in [("c10_running_continue", "Continue", "quick"), ("c10_running_finish", "Finish", "quick"),
                          ("c10_running_stepinto", "StepInto{count}", "quick"), ("c10_running_stepover", "StepOver{return_addr}", "quick")]:
     DH(["C10", "C09", "C11", "C16"], nm, RUNNING.format(stname), NA_FUNCS, covers=3,
-       tiers=["quick", "quick" if nm == "c10_running_continue" else "thorough", "quick" if nm == "c10_running_continue" else "thorough", "quick"])
+       tiers=["quick", "quick" if nm in ("c10_running_continue", "c10_running_stepover") else "thorough",
+              "quick" if nm == "c10_running_continue" else "thorough", "quick"])
 for nm, cmd in [("c10_cmd_step", "step"), ("c10_cmd_stepinto", "step into k (every k >= 1)"), ("c10_cmd_stepout", "step out"),
                 ("c10_cmd_continue", "continue"), ("c10_cmd_quit", "quit"), ("c10_cmd_exit", "exit")]:
     DH(["C10", "C16", "C09"], nm, f"`{cmd}` at a paused debugger, arbitrary machine and PC (incl. HALT, 0xFFFF): status armed as documented, refused on "
@@ -592,7 +593,7 @@ for n in (0, 1, 3):
       allow_unsat=["idx < 0"] if False else [],
       functions=["AsmSource::get_source_statement", "AsmSource::get_single_line"],
       what=f"address -> statement (address - origin) or nothing, {n} statements; shown text = statement span", bounds=f"{n} statements; 8-byte source")
-    H("C09", f"debugger::asm::verif_h::c17_source_lookup_{n}", ASMF, tier="thorough", covers=2, timeout=2400, mem_gb=20,
+    H("C09", f"debugger::asm::verif_h::c17_source_lookup_{n}", ASMF, tier=("quick" if n == 1 else "thorough"), covers=2, timeout=2400, mem_gb=20,
       functions=["AsmSource::get_source_statement"], what="`assembly` on any address never panics", bounds=f"{n} statements")
 
 NAMEF = "src/debugger/command/parse/name.rs"
